@@ -6,6 +6,7 @@ import MesonModel.Rewrite.ListEdit
 import MesonModel.Rewrite.PathMatch
 import MesonModel.Rewrite.Script
 import MesonModel.Rewrite.ParenTable
+import MesonModel.Rewrite.CommandLemmas
 /-
 C17 — rewriter edits are local and keep everything else meaning the same (theorems over the model).
 
@@ -360,5 +361,109 @@ theorem astPrint_roundtrip_samples :
     roundtrip (.arith 0 ['+'] ['+'] (.paren 0 (.ternary 0 (idx 'x') (idx 'a') (idx 'b'))) (.num 0 1)) ∧
     roundtrip (.call 0 ['f'] 0 (.pos (.str 0 ['a', '\\', 'b'] false false) (.kw (idx 'k') (.bool 0 true) .nil))) ∧
     roundtrip (.arr 0 0 (.pos (.num 0 1) (.pos (.arith 0 ['%'] ['%'] (idx 'n') (.num 0 3)) .nil))) := by decide
+
+/-! ### one whole command on the AST + printer model: `kwargs set / delete` on a function call (Rewrite/Command.lean)
+
+`applyKw raw sp node cmd` = `process_kwargs` on the parsed call node followed by `apply_changes`; the real command is
+compared with it on every run (driver command `kwcmd`: file text, extents and tree of the addressed call as parsed from the
+text BEFORE the command, the command itself → the file the real command wrote). -/
+
+/-- (c) on the file text, for every file, every call node, every command: nothing changes, or exactly the text between the
+node's extents is replaced by the re-printed node — every character before it and after it is what it was -/
+theorem kwargs_command_local (raw : List Char) (sp : Span) (node : Expr) (cmd : KwCmd) (s e : Nat)
+    (hs : startOf (lineOffsets raw) sp = .ok s) (he : endOf (lineOffsets raw) sp = .ok e) :
+    (editCall cmd node = none ∧ applyKw raw sp node cmd = .ok raw) ∨
+    ∃ n', editCall cmd node = some n' ∧ applyKw raw sp node cmd = .ok (raw.take s ++ newData n' ++ raw.drop e) := by
+  have h := applyKw_eq raw sp node cmd s e hs he
+  cases hc : editCall cmd node with
+  | none => left; rw [hc] at h; exact ⟨rfl, h⟩
+  | some n' => right; rw [hc] at h; exact ⟨n', rfl, h⟩
+
+/-- (c) inside the re-printed statement: same function, same levels, the positional arguments untouched and in order, the
+keyword arguments exactly the edited dictionary (in dictionary order), and every keyword the command does not name keeps
+the value it had -/
+theorem kwargs_command_keeps_other_arguments (cmd : KwCmd) (l : Nat) (fn : List Char) (al : Nat) (items : Items) (n' : Expr)
+    (h : editCall cmd (.call l fn al items) = some n') :
+    n' = .call l fn al (rebuild items (editedDict cmd items)) ∧
+    (rebuild items (editedDict cmd items)).posPart = items.posPart ∧
+    (rebuild items (editedDict cmd items)).kwPart = (editedDict cmd items).map (fun p => (Expr.id p.2.lvl p.1, p.2)) ∧
+    ∀ k', (∀ kv ∈ cmd.kvs, kv.1 ≠ k') → dictGet (editedDict cmd items) k' = items.kwValue k' := by
+  refine ⟨?_, rebuild_posPart _ _, rebuild_kwPart _ _, ?_⟩
+  · simp only [editCall] at h
+    split at h
+    · exact absurd h (by simp)
+    · simpa [editedDict] using h.symm
+  · intro k' hk
+    unfold editedDict Items.kwValue
+    exact editDict_other cmd.delete k' _ _ _ (fun kv hkv => hk kv ((mem_sortKvs kv cmd.kvs).mp hkv))
+
+/-- (b) `kwargs set <key> <value>`: the node is queued for re-printing and the addressed keyword has EXACTLY the node built
+from the requested value (for every call, every key, every value — no escaping or decoding happens on the way) -/
+theorem kwargs_set_has_requested_value (l : Nat) (fn : List Char) (al : Nat) (items : Items) (k : List Char) (v : NewVal) :
+    (editCall ⟨false, [(k, v)]⟩ (.call l fn al items)).isSome = true ∧
+    dictGet (editedDict ⟨false, [(k, v)]⟩ items) k = some v.node := by
+  constructor
+  · simp [editCall, sortKvs, insertKv, editDict]
+  · simp [editedDict, sortKvs, insertKv, editDict, dictGet_dictSet_self]
+
+/-- `kwargs delete <key>`: afterwards the call has no such keyword -/
+theorem kwargs_delete_removes_key (items : Items) (k : List Char) (v : NewVal) :
+    dictGet (editedDict ⟨true, [(k, v)]⟩ items) k = none := by
+  unfold editedDict
+  simp only [sortKvs, insertKv, editDict]
+  cases h : dictHas (kwDictOf items) k with
+  | true => simp [editDict, dictGet_dictDel_self]
+  | false => simp [editDict, dictGet_none_of_not_has k _ h]
+
+/-- (d) setting a keyword the call does not have and deleting it again restores the keyword dictionary, entry for entry and
+in order (and both commands do change something: each queues the node) -/
+theorem kwargs_set_then_delete_restores (d : KwDict) (k : List Char) (v v' : NewVal) (hnew : dictHas d k = false) :
+    editDict true [(k, v')] (editDict false [(k, v)] d 0).1 0 = (d, 1) := by
+  simp [editDict, dictHas_dictSet_self, dictDel_dictSet_new d k v.node hnew]
+
+example : dictHas (kwDictOf (.pos (.str 0 ['t'] false false) (.kw (.id 0 ['i']) (.bool 0 true) .nil))) ['k'] = false := by decide
+
+/-- (a), the part that depends on the VALUE: the text written for an introduced string value is one string token whose
+value is the requested one, for every value (quotes, backslashes, anything) -/
+theorem introduced_string_read_back (v : List Char) : lexString (astPrint (NewVal.str v).node) = some v := by
+  show lexString (astPrint (.str 0 v false false)) = some v
+  rw [astPrint_str]; exact escape_roundtrip_live v
+
+/-- the statement a `kwargs set` re-prints is read back (own reader) as the edited tree -/
+def kwSetReadsBack (items : Items) (k : List Char) (v : NewVal) : Bool :=
+  match editCall ⟨false, [(k, v)]⟩ (.call 0 ['f'] 0 items) with
+  | some n' =>
+    match parseText (newData n') with
+    | some p => p.erase == n'.erase
+    | none => false
+  | none => false
+
+/-- calls whose arguments are literals: positional strings, keywords with string / boolean values -/
+def literalOnly : Items → Bool
+  | .nil => true
+  | .pos (.str _ v false false) r => !v.contains '\n' && literalOnly r
+  | .kw (.id _ n) (.str _ v false false) r => !n.isEmpty && n.all isIdChar && !v.contains '\n' && literalOnly r
+  | .kw (.id _ n) (.bool _ _) r => !n.isEmpty && n.all isIdChar && literalOnly r
+  | _ => false
+
+/-- (a) at full strength for the literal fragment — NOT proved for all items (it needs an induction through `lexText` and
+`pE1 … pArgs` with their fuel); checked on the samples below and per run (`kwcmd`, `parse-printed` streams) -/
+def kwargs_set_parses_full_statement : Prop :=
+  ∀ (items : Items) (k v : List Char), literalOnly items = true → k.all isIdChar = true → (k.head?.map isIdStart) = some true →
+    keywords.contains k = false → v.contains '\n' = false → kwSetReadsBack items k (.str v) = true
+
+def sampleItems : Items :=
+  .pos (.str 0 ['t', '0'] false false) (.pos (.str 0 ['a', '\'', '\\'] false false)
+    (.kw (.id 0 ['i', 'n', 's', 't', 'a', 'l', 'l']) (.bool 0 false) (.kw (.id 0 ['d']) (.str 0 ['x'] false false) .nil)))
+
+def hostileSamples : List (List Char) :=
+  ["it's".toList, "'".toList, "''".toList, "\\".toList, "C:/dir\\".toList, "a\\nb".toList, "\\'".toList, "a\\\\b".toList,
+   "é中".toList, "@0@".toList, " lead".toList, "trail ".toList, "a\tb".toList, "say \"hi\"".toList, "a#b".toList, "".toList]
+
+/-- (a) + (b) on the text, for hostile values × (existing key replaced / new key appended / key on a call without keywords) -/
+theorem kwargs_set_parses_partial :
+    ∀ v ∈ hostileSamples,
+      kwSetReadsBack sampleItems ['d'] (.str v) = true ∧ kwSetReadsBack sampleItems ['n', 'e', 'w'] (.str v) = true ∧
+      kwSetReadsBack (.pos (.str 0 v false false) .nil) ['k'] (.strList [v, v]) = true := by decide +kernel
 
 end MesonModel.Props.C17
